@@ -1,7 +1,7 @@
-(* SolveAllHistF.v — histories of public solver calls on ONE model instance (solve_t / solve_period / solve in any order, each
-   with its own options; exceptions caught by the caller), instantiated with primitive floats and scripted oracles: what the
-   correspondence K_history runs.  Definitions only.  SolveAllHistFacts.run_hist_state ties it to SolveAllFacts2.run_api, the
-   subject of the status-alphabet invariant. *)
+(* SolveAllHistF.v — histories on ONE model instance: public solver calls (solve_t / solve_period / solve in any order, each with
+   its own options; exceptions caught by the caller) interleaved with copy(), whole-series and cell assignments and reindex() onto
+   another span, instantiated with primitive floats and scripted oracles: what the correspondence K_history runs.
+   Definitions only.  SolveAllHistFacts ties the solver calls to SolveAllFacts2.run_api and proves the status invariants. *)
 From Coq Require Import PrimFloat ZArith List Bool.
 Import ListNotations.
 Require Import PyBase Solver SolverF SolveAll SolveAllSpan SolveAllF.
@@ -10,38 +10,67 @@ Open Scope Z_scope.
 Inductive hcall : Type :=
 | HSolveT (o : fopts) (t : Z)
 | HSolvePeriod (o : fopts) (lab : Z)
-| HSolve (o : fopts) (start end_ : option Z).
+| HSolve (o : fopts) (start end_ : option Z)
+(* state edits between solver calls: they touch values only, never status / iterations *)
+| HCopy                                      (* m = m.copy(): go on with an equal copy *)
+| HSetRow (i : nat) (row : list float)       (* m.V_i = [x0, ..., x_{n-1}]  (whole-series assignment of a list of span length) *)
+| HSetCell (i : nat) (p : Z) (x : float)     (* m.V_i[p] = x  (p a Python index, possibly negative) *)
+(* m = m.reindex(new_span): a copy on the new span; a period whose label occurs in the old span takes values, status and
+   iterations from the old position of that label, every other period is filled (NaN / '-' / -1) *)
+| HReindex (new_span : list Z).
+
+Definition edit_vals (c : hcall) (v : vals float) : vals float :=
+  match c with
+  | HSetRow i row => if Nat.eqb (length row) (length (nth i v [])) then upd i row v else v
+  | HSetCell i p x => match py_pos (length (nth i v [])) p with Some q => set_cell float v i q x | None => v end
+  | _ => v
+  end.
+
+Definition reindex_list {A} (old_span new_span : list Z) (fill : A) (l : list A) : list A :=
+  map (fun lab => match index_of lab old_span 0 with Some p => nth (Z.to_nat p) l fill | None => fill end) new_span.
+
+Definition reindex_state (old_span new_span : list Z) (s : fstate) : fstate :=
+  mkState (map (reindex_list old_span new_span nan) (vals_of s))
+          (reindex_list old_span new_span Unsolved (status s))
+          (reindex_list old_span new_span (-1) (iters s))
+          (log s).
+
+(* the state of a history: the model and its current span *)
+Definition hstate : Type := (fstate * list Z)%type.
 
 Section Hist.
-  Variables (sc : scripts) (d : mdesc) (kind : nat) (span : list Z) (n : nat).
-  Let ev := s_ev n sc.
-  Let bf := s_before n sc.
-  Let af := s_after n sc.
-  Let loc := f_locate kind span [].
+  Variables (sc : scripts) (d : mdesc) (kind : nat).
 
-  Definition run_hcall (c : hcall) (s : fstate) : fstate * sout :=
+  Definition run_hcall (c : hcall) (hs : hstate) : hstate * sout :=
+    let '(s, span) := hs in
+    let n := length (status s) in
+    let ev := s_ev n sc in let bf := s_before n sc in let af := s_after n sc in
+    let loc := f_locate kind span [] in
     match c with
     | HSolveT o t =>
         match solve_t_M float PrimFloat.sub PrimFloat.abs PrimFloat.ltb fisfin fzero ev bf af d o t s with
-        | (s', Ret b) => (s', Ret (1%nat, [(0, t, b)]))
-        | (s', Raise e) => (s', Raise e)
+        | (s', Ret b) => ((s', span), Ret (1%nat, [(0, t, b)]))
+        | (s', Raise e) => ((s', span), Raise e)
         end
     | HSolvePeriod o lab =>
         match solve_period_M float PrimFloat.sub PrimFloat.abs PrimFloat.ltb fisfin fzero ev bf af Z loc d o lab s with
-        | (s', Ret b) => (s', Ret (1%nat, [(lab, 0, b)]))
-        | (s', Raise e) => (s', Raise e)
+        | (s', Ret b) => ((s', span), Ret (1%nat, [(lab, 0, b)]))
+        | (s', Raise e) => ((s', span), Raise e)
         end
     | HSolve o start end_ =>
         match solve_M float PrimFloat.sub PrimFloat.abs PrimFloat.ltb fisfin fzero ev bf af Z loc d o span start end_ s with
-        | (s', Ret r) => (s', Ret (r_len r, r_visits r))
-        | (s', Raise e) => (s', Raise e)
+        | (s', Ret r) => ((s', span), Ret (r_len r, r_visits r))
+        | (s', Raise e) => ((s', span), Raise e)
         end
+    | HCopy | HSetRow _ _ | HSetCell _ _ _ =>
+        ((mkState (edit_vals c (vals_of s)) (status s) (iters s) (log s), span), Ret (0%nat, []))
+    | HReindex new_span => ((reindex_state span new_span s, new_span), Ret (0%nat, []))
     end.
 
-  Fixpoint run_hist (cs : list hcall) (s : fstate) : fstate * list sout :=
+  Fixpoint run_hist (cs : list hcall) (hs : hstate) : hstate * list sout :=
     match cs with
-    | [] => (s, [])
-    | c :: r => let '(s1, o1) := run_hcall c s in let '(s2, os) := run_hist r s1 in (s2, o1 :: os)
+    | [] => (hs, [])
+    | c :: r => let '(h1, o1) := run_hcall c hs in let '(h2, os) := run_hist r h1 in (h2, o1 :: os)
     end.
 End Hist.
 
@@ -50,5 +79,5 @@ Record hcase := mkHCase {
   h_state : fstate; hx_state : fstate; hx_outs : list sout }.
 
 Definition check_hcase (c : hcase) : bool :=
-  let '(s', outs) := run_hist (h_scripts c) (h_desc c) (h_kind c) (h_span c) (length (status (h_state c))) (h_calls c) (h_state c) in
+  let '((s', _), outs) := run_hist (h_scripts c) (h_desc c) (h_kind c) (h_calls c) (h_state c, h_span c) in
   state_eqb s' (hx_state c) && list_eqb sout_eqb outs (hx_outs c).
